@@ -1,7 +1,8 @@
 """C06 -- closeness centrality: the incoming-distance clause only."""
 from core import ASSUME_RUSTC, ASSUME_PATHS
 from engines import value_descriptor, closures_created_in
-from flow import Flows, L, fmt_desc
+from flow import Flows, L, fmt_desc, desc_mentions
+import panic
 from guard import ok_producers
 from props.c01 import controlling_atoms
 from mir import loc_str, short
@@ -153,6 +154,34 @@ def run(ctx):
             t4 = prog.bodies[bp4].blocks[nd4[1]].term
             if t4.callee and t4.callee.short.split("::")[-1] in ("min", "max", "clamp", "round", "floor", "ceil", "trunc", "abs", "signum", "fract", "rem_euclid", "powi", "powf", "sqrt", "ln", "exp", "to_int_unchecked", "saturating_sub", "saturating_add") and ("f64" in t4.callee.short or "f32" in t4.callee.short or t4.dest.ty in ("f64", "f32")):
                 lim.add(t4.callee.short.split("::")[-1])
+    # R-C06-5: the quotient is used exactly when more than one node exists (and the distance sum is positive); the test
+    # on the node count is tabulated for n = 0..6
+    ctx.rule("R-C06-5", "the closeness quotient is selected exactly for num_nodes >= 2 (guard tabulated over the node count)")
+    from engines import eval_over_count
+    from props.c01 import controlling_atoms as _ca5
+
+    f5 = flows.of(fb)
+    cnt_params = [fb.local_name(i_) for i_ in range(1, fb.arg_count + 1) if fb.local_ty(i_) == "usize" and fb.local_name(i_)]
+
+    def _is_cnt(d_):
+        return isinstance(d_, tuple) and ((d_[0] == "place" and d_[1] in cnt_params) or (d_[0] == "call" and (d_[1].split("::")[-1] == "number_of_nodes" or (d_[1].split("::")[-1] == "len" and desc_mentions(d_, lambda x: x[0] == "call" and x[1].split("::")[-1] in ("get_all_nodes", "get_all_node_names"))))))
+
+    n5 = 0
+    for st5 in fb.stmts():
+        if st5.k == "assign" and st5.rv.k == "binop" and st5.rv.j["op"] == "Div" and all(o_.place is not None and o_.place.ty == "f64" for o_ in st5.rv.ops):
+            for (te5, v5, a5) in _ca5(f5, st5.bb):
+                if not (isinstance(te5, tuple) and te5[0] == "binop" and desc_mentions(te5, _is_cnt)):
+                    continue
+                tab5 = {}
+                for k5 in range(0, 7):
+                    r5 = eval_over_count(f5, panic.norm(te5), k5, _is_cnt)
+                    tab5[k5] = None if r5 is None else (bool(r5) == bool(v5))
+                if None in tab5.values():
+                    continue
+                n5 += 1
+                want5 = {k5: k5 >= 2 for k5 in range(0, 7)}
+                ctx.require(tab5 == want5, "R-C06-5", "guard-exact|%d" % n5, "the quotient is used exactly for num_nodes >= 2", "the test on the node count selects the quotient for n in %s, not exactly for n >= 2 (differs at n = %s)" % (sorted(k_ for k_, x_ in tab5.items() if x_), sorted(k_ for k_ in tab5 if tab5[k_] != want5[k_])), loc_str(st5.span))
+    ctx.counters["closeness_count_guards"] = n5
     ctx.require(not lim, "R-C06-4", "no-limit|" + fb.short.split("::")[-1], "%s computes the quotient with arithmetic only" % fb.short.split("::")[-1], "%s passes the closeness value through %s: the definition (r-1)/sum of distances is not bounded by 1 (weights below 1) and is not rounded" % (fb.short.split("::")[-1], sorted(lim)), loc_str(fb.span))
     ctx.rule("R-C06-2", "the result depends on weighted, wf_improved and the kernels")
     sl = set()
